@@ -989,8 +989,12 @@ def _identity_state(net):
     return out
 
 
+def _mode_of(meta):
+    return "sequential" if meta.get("thermal") and not meta.get("needs_bidirectional") else ("bidirectional" if meta.get("needs_bidirectional") else "hydraulics")
+
+
 def _solve(net, meta):
-    mode = "sequential" if meta.get("thermal") and not meta.get("needs_bidirectional") else ("bidirectional" if meta.get("needs_bidirectional") else "hydraulics")
+    mode = _mode_of(meta)
     try:
         pp.pipeflow(net, mode=mode, use_numba=False, **TIGHT)
         return "ok"
@@ -1010,6 +1014,26 @@ def _almost_converged(net):
     if any(not np.isfinite(x) for x in resid):
         return False
     return bool(last) and all(np.isfinite(x) and x < 1e-5 for x in last)
+
+
+def _retry_with_patience(net, kw):
+    """A calculation that ran out of its budget is repeated with a far larger budget and then with strong damping.
+    The properties that compare two executions (C06, C07, C17) speak about results: an execution that needs more
+    iterations - Newton's path in an ill-conditioned net depends on round-off - but arrives at the same results is no
+    violation; one that cannot be brought to converge is."""
+    base = {k_: v_ for k_, v_ in kw.items() if k_ not in ("iter", "max_iter_hyd", "max_iter_therm", "max_iter_bidirect", "alpha",
+                                                          "nonlinear_method", "reuse_internal_data")}
+    for extra in ({"iter": 1500}, {"iter": 4000, "alpha": 0.3, "nonlinear_method": "constant"}):
+        k = dict(base)
+        k.update(extra)
+        try:
+            pp.pipeflow(net, **k)
+            return True
+        except PipeflowNotConverged:
+            continue
+        except Exception:
+            return False
+    return False
 
 
 def _ill_posed(results_by_tag):
@@ -1287,6 +1311,9 @@ def _exec_c17(trace, res):
             # (only every other time: a later operation must also cope with result tables that were
             # relabelled but not recalculated)
             out = _solve(net, meta)
+            if out == "nc" and _retry_with_patience(net, dict(TIGHT, mode=_mode_of(meta), use_numba=False)):
+                res.count("probe:converged-with-larger-budget")
+                out = "ok"
             if out == "nc" and _almost_converged(net):
                 res.count("probe:slow-convergence-verdict-skipped")
             elif out != "ok":
@@ -1527,8 +1554,17 @@ def _exec_c06(trace, res):
                 # (the side that ran out of budget was creeping towards the solution at the round-off floor)
                 res.count("probe:slow-convergence-verdict-skipped")
                 continue
-            res.violate("C06", "C06/verdict-differs:%s-vs-%s" % (ref_out, out), label, vi)
-            continue
+            patient_kw = dict(TIGHT, mode=mode, use_numba=var["use_numba"])
+            if ref_out == "ok" and out == "nc" and _retry_with_patience(net, patient_kw):
+                res.count("probe:converged-with-larger-budget")
+                out = "ok"     # ... and its results are compared below
+            elif ref_out == "nc" and out == "ok" and var["use_numba"] in ref_nets and _retry_with_patience(ref_nets[var["use_numba"]], patient_kw):
+                res.count("probe:converged-with-larger-budget")
+                refs[var["use_numba"]] = ("ok", _results_by_tag(ref_nets[var["use_numba"]]))
+                ref_out, ref_res = refs[var["use_numba"]]
+            else:
+                res.violate("C06", "C06/verdict-differs:%s-vs-%s" % (ref_out, out), label, vi)
+                continue
         if ref_res is None:
             continue
         if _ill_posed(ref_res):
